@@ -100,7 +100,7 @@ theorem step_exit {s : St} (k : Nat) (h : FifoInv s ∧ ExitInv s) : FifoInv (st
 theorem run_exit {s : St} (sched : List Nat) (hf : FifoInv s) (h : ExitInv s) : ExitInv (run s sched) :=
   (run_invariant (P := fun s => FifoInv s ∧ ExitInv s) (fun _ k h => step_exit k h) ⟨hf, h⟩ sched).2
 
-theorem init_exit (elt wl : Bool) (tbl) (dtbl) (pre) (progs) : ExitInv (init elt wl tbl dtbl pre progs) := by
+theorem init_exit (elt wl : Bool) (tbl) (dtbl) (pre) (again) (progs) : ExitInv (init elt wl tbl dtbl pre again progs) := by
   cases elt <;> (refine ⟨?_, ?_, ?_, ?_, ?_, ?_, ?_⟩ <;> simp [init, exited])
 
 end MuduoVerif.Loop
